@@ -478,3 +478,23 @@ def const_of(v):
                 return True, bool(c)
             return True, float(c) if c.denominator != 1 else (int(c) if v.kind == "int" else float(c))
     return False, None
+
+
+def dict_key(v):
+    """Hashable abstract key of a dict subscript: python constant when known, else a symbolic key that is
+    equal for equal abstract values (same term / same tag)."""
+    ok, c = const_of(v)
+    if ok:
+        try:
+            hash(c)
+            return True, c
+        except TypeError:
+            pass
+    if isinstance(v, VTuple):
+        ks = [dict_key(x) for x in v.items]
+        return all(k[0] for k in ks), tuple(k[1] for k in ks)
+    if isinstance(v, VNum) and v.term is not None:
+        return False, ("sym", repr(v.term))
+    if isinstance(v, VUnknown):
+        return False, ("sym", v.tag)
+    return False, ("sym", "obj%d" % id(v))
